@@ -9,7 +9,7 @@ import z3
 
 from . import builtins as B
 from . import ops
-from .values import (MAXLEN, HObj, Unsupported, VBool, VInt, VRef, fresh, mkint, _iv)
+from .values import (tid, MAXLEN, HObj, Unsupported, VBool, VInt, VRef, fresh, mkint, _iv)
 
 
 def make(I, cs, elem_type, name, length=None):
@@ -23,7 +23,7 @@ def make(I, cs, elem_type, name, length=None):
 
 def elem(I, ref, o, idx: VInt):
     """element at a (normalised, in range) index"""
-    key = idx.c if idx.c is not None else ("t", z3.simplify(idx.as_int()).get_id())
+    key = idx.c if idx.c is not None else ("t", tid(idx.as_int()))
     e = o.meta["elems"].get(key)
     if e is None and o.meta["elem_type"] == "concat":
         for (start, n, p) in o.meta["segs"]:
@@ -95,7 +95,7 @@ def method(I, ref, o, name, args, kw):
     if name == "append":
         I.log_write(("cont", ref.ref))
         n = o.meta["len"]
-        key = n.c if n.c is not None else ("t", z3.simplify(n.as_int()).get_id())
+        key = n.c if n.c is not None else ("t", tid(n.as_int()))
         o.meta["elems"] = dict(o.meta["elems"])
         o.meta["elems"][key] = (args[0], n)
         o.meta["len"] = ops._arith(I, "+", n, mkint(1))
